@@ -1,0 +1,5 @@
+//go:build !verif
+
+package node
+
+func simYield(point string) {}
